@@ -401,14 +401,17 @@ def plan_C19(ctx):
     b = vcore.build()
     h = hbin(b, "h_oss")
     ctx.rule = OSS_RULE
-    ctx.assumptions = ["the source manager is upstream's test double (ccl/core/test/utils/FakeSourceManager.hpp); sources stay open, close / re-open events are not generated",
+    ctx.assumptions = ["the source manager is upstream's test double (ccl/core/test/utils/FakeSourceManager.hpp)",
                        "schemas are abstracted in the model to (the sequence of base sets as origin tokens with their alias numbers, inherited terms, user-added terms); in the unlabelled presets equation tables only between two base pictograms and text edits only where no constituent reaches an operation along two paths",
                        "labelled presets (every base set carries a unique term text): copies arriving twice are merged, tables may name base sets of operation results (first or last), and the origin of every base set of every source and of every table entry is compared with the model; there the texts decide what DeleteDuplicates merges, so the synthesis can change without any change of a parent's formal content - Fresh and the implementation-only freshness comparison are restricted to unlabelled schemas, statuses are still compared with the model",
                        "a parent re-connected to another source with the same formal content leaves its children done (the statement speaks of changes that alter the formal content); counted, not reported",
                        "the layout grid is modelled exactly (ClosestFreePos never moves left, ChildPosFor rounds half up); LoadPosition is generated only onto free cells (its precondition as a loader primitive)"]
     ctx.constants = {}
+    # thorough: one more call for the presets whose state space stays tractable (chain: 3.4 M histories); the others keep the
+    # quick bound (one more call is > 8 M histories each, beyond what TLC holds in 16 GB) and are deepened by the recorded traces
+    deep = ("chain", "empty", "grid")
     for pr in ("chain", "diamond", "synt", "stale", "lchain", "ldiamond", "empty", "grid"):
-        cfg = "Gen_OSS_%s_%s.cfg" % ("q" if ctx.quick else "t", pr)
+        cfg = "Gen_OSS_%s_%s.cfg" % ("t" if (not ctx.quick and pr in deep) else "q", pr)
         ctx.constants[cfg] = open(os.path.join(vcore.TLA, cfg)).read().split("SPECIFICATION")[0].split()
         ctx.replay("Gen_OSS.tla", cfg, h, [], tag=cfg[:-4], timeout=3400, xss="64m", xmx="16g")
     ctx.exhaustive = True
